@@ -385,6 +385,7 @@ func compatCmd(a Args) {
 		compatGroup(s, g)
 	}
 	boundsMatrix(s)
+	exactMatrix(s)
 	enumKindMatrix(s)
 	enumDisplayMatrix(s)
 	oneOfDiscMatrix(s)
@@ -504,7 +505,10 @@ func boundsMatrix(s *compatSink) {
 			return &hx.Ty{T: "float", Min: fmn, Max: fmx}
 		}
 	}
-	ranges := [][2]int64{{2, 5}, {6, 9}, {0, 1}, {4, 7}}
+	// other ranges around the consumer's: inside, apart, and TOUCHING it in one point (ranges are inclusive:
+	// a maximum equal to the other side's minimum is an overlap); consumers with a proper range and with
+	// one exact size / value (min == max)
+	ranges := [][2]int64{{2, 5}, {6, 9}, {0, 1}, {4, 7}, {5, 8}, {0, 2}, {5, 5}, {2, 2}, {3, 3}}
 	for _, kind := range []string{"int", "str", "list", "map", "float"} {
 		for mask := 0; mask < 16; mask++ {
 			for _, or := range ranges {
@@ -534,6 +538,49 @@ func boundsMatrix(s *compatSink) {
 					s.finding(Finding{Prop: "C15", What: "ranges that cannot overlap were accepted", Cases: []int{id}, Schema: self})
 				case !disjoint && r.R != "ok":
 					s.finding(Finding{Prop: "C15", What: "overlapping ranges were rejected: " + r.Msg, Cases: []int{id}, Schema: self})
+				}
+			}
+		}
+	}
+}
+
+// exactMatrix: consumers and producers with one exact size / value (min == max), against themselves,
+// against neighbours and against ranges that touch them.
+func exactMatrix(s *compatSink) {
+	mk := func(kind string, lo, hi int64) *hx.Ty {
+		mn, mx := hx.IntP(lo), hx.IntP(hi)
+		switch kind {
+		case "int":
+			return &hx.Ty{T: "int", Min: mn, Max: mx}
+		case "str":
+			return &hx.Ty{T: "str", Min: mn, Max: mx}
+		case "list":
+			return &hx.Ty{T: "list", Item: &hx.Ty{T: "bool"}, Min: mn, Max: mx}
+		case "map":
+			return &hx.Ty{T: "map", K: &hx.Ty{T: "str"}, V: &hx.Ty{T: "bool"}, Min: mn, Max: mx}
+		default:
+			return &hx.Ty{T: "float", Min: hx.FloatP(float64(lo)), Max: hx.FloatP(float64(hi))}
+		}
+	}
+	rs := [][2]int64{{0, 0}, {1, 1}, {3, 3}, {0, 3}, {3, 6}, {4, 6}, {1, 2}}
+	for _, kind := range []string{"int", "str", "list", "map", "float"} {
+		for _, a := range rs {
+			for _, b := range rs {
+				self, other := mk(kind, a[0], a[1]), mk(kind, b[0], b[1])
+				if kind == "map" || kind == "list" {
+					// also as a property of an object
+					self = &hx.Ty{T: "obj", ID: "E", Props: []hx.NamedProp{{Name: "e", P: &hx.Prop{Ty: self}}}}
+					other = &hx.Ty{T: "obj", ID: "E", Props: []hx.NamedProp{{Name: "e", P: &hx.Prop{Ty: other}}}}
+				}
+				r, id := s.emitCompat(self, other, "bounds:exact", false)
+				disjoint := b[0] > a[1] || b[1] < a[0]
+				switch {
+				case r.R == "panic":
+					s.finding(Finding{Prop: "C15", What: "ValidateCompatibility panicked on exact bounds: " + r.Msg, Cases: []int{id}, Schema: self})
+				case disjoint && r.R == "ok":
+					s.finding(Finding{Prop: "C15", What: "ranges that cannot overlap were accepted", Cases: []int{id}, Schema: self})
+				case !disjoint && r.R != "ok":
+					s.finding(Finding{Prop: "C15", What: fmt.Sprintf("overlapping ranges were rejected (%s [%d,%d] <- [%d,%d]): %s", kind, a[0], a[1], b[0], b[1], r.Msg), Cases: []int{id}, Schema: self})
 				}
 			}
 		}
